@@ -682,7 +682,7 @@ def configs_for(tier):
 
 def check_c06(ctx, cov):
     ms = corpus(ctx.tier, ctx.seed) + big_corpus(ctx.tier) + width_corpus(ctx.tier) + typedetect_corpus() + valence_corpus(ctx.tier) + emptykind_corpus()
-    small = [m for m in ms if not m.name.startswith('soup') and m.nf < 1000 and (ctx.tier == 'thorough' or not m.name.startswith(('td_', 'pz_only', 'cval25', 'fval25')))]
+    small = [m for m in ms if not m.name.startswith('soup') and m.nf < 1000 and m.nv + m.ne < 2000 and (ctx.tier == 'thorough' or not m.name.startswith(('td_', 'pz_only', 'cval25', 'fval25')))]
     pend = pending_corpus()
     defs = meshdefs_of(ms + pend)
     # (a) writer -> description, for both formats; (d) pending deletions
